@@ -119,11 +119,28 @@ def buf(n_or_bytes):
     return b
 
 
+_libc = ctypes.CDLL(None)
+_libc.malloc.restype = c_void_p
+_libc.malloc.argtypes = [c_size_t]
+_libc.free.restype = None
+_libc.free.argtypes = [c_void_p]
+
+
 def exact(data):
-    """Heap copy sized exactly to `data` (ASan red zones right after the last byte)."""
+    """Copy of `data` in a block obtained from libc malloc (intercepted by the preloaded ASan runtime), sized
+    exactly: the red zone starts right after the last byte.  (ctypes' own buffers come from pymalloc arenas,
+    which ASan does not track.)  Returns a ctypes ubyte array mapped onto the block."""
+    import weakref
+    data = bytes(data)
     n = len(data)
-    b = (c_ubyte * max(n, 1)).from_buffer_copy(bytes(data) if n else b"\0")
-    return b
+    p = _libc.malloc(max(n, 1))
+    if n:
+        ctypes.memmove(p, data, n)
+        arr = (c_ubyte * n).from_address(p)
+    else:
+        arr = (c_ubyte * 0).from_address(p + 1)   # zero-length: one past the 1-byte block, any access traps
+    weakref.finalize(arr, _libc.free, p)
+    return arr
 
 
 CONTEXT_NONE = 1
